@@ -193,13 +193,18 @@ def check_outer(alg, keys, vals, do_tan=True):
             fails.append(('outerexp-sum', f'outersin + outercos = {sc} differs from outerexp = {got["outerexp"]}'))
     status = 'skipped'
     if do_tan:
-        msn = mk(alg, list(Sn), list(Sn.values()))
-        mcs = mk(alg, list(Cs), list(Cs.values()))
+        # zero coefficients dropped: the numeric `^` stores zeros, and the inverse is generated per key pattern
+        nsn = {k: v for k, v in Sn.items() if v != 0}
+        ncs = {k: v for k, v in Cs.items() if v != 0}
+        msn = mk(alg, list(nsn), list(nsn.values()))
+        mcs = mk(alg, list(ncs), list(ncs.values()))
         try:
             want = cd(msn * mcs.inv())
             status = 'ok'
         except ZeroDivisionError:
             status = 'singular'
+        except Exception:  # noqa   the oracle itself is unavailable (inverse generator fails on this key pattern: C07's subject)
+            status = 'no-oracle'
         if status == 'ok':
             try:
                 t = x.outertan()
@@ -214,7 +219,7 @@ def check_outer(alg, keys, vals, do_tan=True):
                         status = 'ill-conditioned'
             except Exception as e:  # noqa
                 fails.append(('outertan', f'outertan raised {type(e).__name__}: {e} although outercos is invertible'))
-        else:
+        elif status == 'singular':
             try:
                 t = cd(x.outertan())
                 big = any((complex(v) != complex(v)) or abs(complex(v)) > 1e12 for v in t.values())
